@@ -218,7 +218,7 @@ def check_case(case):
     n_iter = len(out.obj)
     ran = case["solver"].get("max_iter", 1) > 0
     if not np.all(np.isfinite(w)):
-        wild = c01.wild_newton_step(case, None) if solver in ("ProxNewton", "GroupProxNewton") else False
+        wild = c01.wild_newton_step(case, None, nonfinite=True) if solver in ("ProxNewton", "GroupProxNewton") else False
         viol.append(Viol(dict(sig, kind="non-finite", what="coefficients", wild_newton_step=wild), f"{solver} on {case['flags']} returned non-finite coefficients"))
         return result(viol, True, classes)
     nf_stop = ran and n_iter >= 1 and not math.isfinite(out.stop)
@@ -231,7 +231,7 @@ def check_case(case):
             if not math.isfinite(F_of(case, start_point(case))):
                 classes.append("loss-overflows-at-start")
                 nf_stop = nf_obj = False
-    wild = c01.wild_newton_step(case, None) if (nf_stop or nf_obj) and solver in ("ProxNewton", "GroupProxNewton") else False
+    wild = c01.wild_newton_step(case, None, nonfinite=True) if (nf_stop or nf_obj) and solver in ("ProxNewton", "GroupProxNewton") else False
     if nf_stop:
         viol.append(Viol(dict(sig, kind="non-finite", what="stop_crit", wild_newton_step=wild), f"{solver} on {case['flags']} returned stop_crit={out.stop!r} after {n_iter} iterations"))
     if nf_obj:
